@@ -204,12 +204,15 @@ _VC = 'value categories: prototypes void(Big&), void(Big), void(uint32_t, const 
 _VCR = [Run('heter_valcat_cl', 'heter_valcat.cpp', {'OBJ': 0}, covers=5, bounds=_VC % 'HeterCallbackList'), Run('heter_valcat_disp', 'heter_valcat.cpp', {'OBJ': 1}, covers=5, bounds=_VC % 'HeterEventDispatcher'),
         Run('heter_valcat_queue', 'heter_valcat.cpp', {'OBJ': 2}, covers=5, bounds=_VC % 'HeterEventQueue::dispatch'),
         Run('heter_valcat_enqueue', 'heter_valcat.cpp', {'OBJ': 2, 'VIAQ': 1}, covers=5, optional_covers=(0, 1, 2, 3, 4), bounds=_VC % 'HeterEventQueue, enqueue + process (targeted configuration of known finding KF-C14-1: the modifiable-lvalue case)')]
+_HI = 'ArgumentPassingIncludeEvent with a key type whose moved-from state differs from its value (std::map): %s; the key is passed as temporary / lvalue / const lvalue / xvalue; registered key and dispatched key symbolic; two prototypes; listeners must see the key and value the caller passed'
+_HIR = [Run('heter_include_disp', 'heter_include.cpp', {'OBJ': 1}, covers=6, native=('gxx-O0-san', 'gxx-O2', 'clang-O1'), bounds=_HI % 'HeterEventDispatcher'),
+        Run('heter_include_queue', 'heter_include.cpp', {'OBJ': 2}, covers=6, native=('gxx-O0-san', 'gxx-O2', 'clang-O1'), bounds=_HI % 'HeterEventQueue (dispatch, and enqueue + process)')]
 PROPS['C14'] = Prop(
     quick=[Run('heter_queue_k2', 'heter.cpp', {'OBJ': 2, 'KK': 2}, covers=9, optional_covers=(1, 3), bounds=_HT % ('HeterEventQueue', 2, ', insert before a handle of any prototype, enqueue of prototype p (also with a convertible argument type), process, processOne, processIf with a predicate callable with exactly one prototype or with all of them (verdict = function of the symbolic payload), one re-entrant enqueue, final drain')),
            Run('heter_queue_qops_k3', 'heter.cpp', {'OBJ': 2, 'KK': 3, 'QOPS_ONLY': None}, covers=9, optional_covers=(0, 6, 7), bounds=_HT % ('HeterEventQueue', 3, '; this run draws only queue operations: enqueue / process / processOne / processIf')),
            Run('heter_cl_k2', 'heter.cpp', {'OBJ': 0, 'KK': 2}, covers=8, optional_covers=(1, 2, 3, 4, 5), bounds=_HT % ('HeterCallbackList', 2, ', insert before a handle of any prototype')),
-           Run('heter_disp_k2', 'heter.cpp', {'OBJ': 1, 'KK': 2}, covers=8, optional_covers=(1, 2, 3, 4, 5), bounds=_HT % ('HeterEventDispatcher', 2, ', insert before a handle of any prototype'))] + _VCR,
-    thorough=_VCR + [Run('heter_queue_k3', 'heter.cpp', {'OBJ': 2, 'KK': 3}, covers=9, budget_s=1700, bounds=_HT % ('HeterEventQueue', 3, ', insert, enqueue, process, processOne, processIf')),
+           Run('heter_disp_k2', 'heter.cpp', {'OBJ': 1, 'KK': 2}, covers=8, optional_covers=(1, 2, 3, 4, 5), bounds=_HT % ('HeterEventDispatcher', 2, ', insert before a handle of any prototype'))] + _VCR + _HIR,
+    thorough=_VCR + _HIR + [Run('heter_queue_k3', 'heter.cpp', {'OBJ': 2, 'KK': 3}, covers=9, budget_s=1700, bounds=_HT % ('HeterEventQueue', 3, ', insert, enqueue, process, processOne, processIf')),
               Run('heter_queue_qops_k4', 'heter.cpp', {'OBJ': 2, 'KK': 4, 'QOPS_ONLY': None}, covers=9, optional_covers=(0, 6, 7), budget_s=1700, bounds=_HT % ('HeterEventQueue', 4, '; queue operations only')),
               Run('heter_cl_k3', 'heter.cpp', {'OBJ': 0, 'KK': 3}, covers=8, optional_covers=(1, 2, 3, 4, 5), budget_s=1700, bounds=_HT % ('HeterCallbackList', 3, ', insert')),
               Run('heter_disp_k3', 'heter.cpp', {'OBJ': 1, 'KK': 3}, covers=8, optional_covers=(1, 2, 3, 4, 5), budget_s=1700, bounds=_HT % ('HeterEventDispatcher', 3, ', insert'))],
